@@ -451,6 +451,7 @@ func c10Case(c *core.Ctx) *core.Result {
 			var d2 *document.Document
 			var err error
 			var added []*picEntry
+			batch := false
 			mkData := func() (*document.TemplateData, []*picEntry) {
 				data := document.NewTemplateData()
 				var ents []*picEntry
@@ -470,18 +471,28 @@ func c10Case(c *core.Ctx) *core.Result {
 				if _, err = eng.LoadTemplateFromDocument("t", d); err != nil {
 					return
 				}
+				var data *document.TemplateData
+				data, added = mkData()
 				if len(siblings) < 3 && r.Bool() {
-					// an earlier render of the same template stays alive and is saved only at the end
-					data0, ents0 := mkData()
+					// an earlier render of the same template stays alive and is saved only at the end; half of the time it is a
+					// batch render: the very same data object is rendered twice and each document must show the pictures itself
+					data0, ents0 := data, added
+					if r.Bool() {
+						data0, ents0 = mkData()
+					} else {
+						batch = true
+					}
 					if d0, e0 := eng.RenderTemplateToDocument("t", data0); e0 == nil && d0 != nil && d0.Body != nil {
 						siblings = append(siblings, &sibling{d: d0, ledger: append(append([]*picEntry{}, ledger...), ents0...)})
 					}
 				}
-				var data *document.TemplateData
-				data, added = mkData()
 				d2, err = eng.RenderTemplateToDocument("t", data)
 			})
 			log = append(log, fmt.Sprintf("render-with-%d-image-placeholders", len(names)))
+			if batch {
+				log = append(log, "batch-render-with-one-data-object")
+				res.Count("batch_renders", 1)
+			}
 			if cg != nil {
 				res.Add("render/"+cg.Key(), "rendering image placeholders panicked: "+cg.Msg, cg.Stack)
 				break
@@ -522,7 +533,7 @@ func init() {
 		ID:    "C10",
 		Level: "exploration",
 		Rule: "histories of body (AddImageFromData/AddImageFromFile), cell (AddCellImage data/file, AddCellImageFromData) and template-placeholder image additions; every image is a unique generated PNG/JPEG/GIF; original names equal/non-ASCII/extension-less/misleading; size configurations none | W×H | W+keep | H+keep | one dimension without keep | 0.5 mm | 5000 mm; inline and floating; interleaved with header/footer/list/footnote calls, " +
-			"save+open cycles, sibling renders of one template that are saved only after later renders and additions, and (one case in five) an opened foreign package that already carries media. At every save the independent reader resolves each a:blip through the main part's relationships to the media bytes and maps it back to the ledger by content: every added image is shown by exactly one picture, in the place it was added to, stored unmodified; wp:extent and a:ext follow the sizing rule within 2 EMU; media of the opened package keep their bytes. " +
+			"save+open cycles, sibling renders of one template that are saved only after later renders and additions (some of them batch renders of one data object), and (one case in five) an opened foreign package that already carries media. At every save the independent reader resolves each a:blip through the main part's relationships to the media bytes and maps it back to the ledger by content: every added image is shown by exactly one picture, in the place it was added to, stored unmodified; wp:extent and a:ext follow the sizing rule within 2 EMU; media of the opened package keep their bytes. " +
 			"Non-trivial: >=2 images added and >=1 picture resolved; distinct = call sequence.",
 		Cases:         func(t string) int { return tierN(t, 3000, 100000) },
 		Run:           c10Case,
